@@ -2,6 +2,7 @@ package main
 
 import (
 	"fmt"
+	"go/token"
 	"strings"
 
 	"golang.org/x/tools/go/ssa"
@@ -10,6 +11,7 @@ import (
 func init() {
 	register("C11", "Structural clause decided: SMPEventSuccess is raised in exactly two places, each behind the verification of the peer's proofs and the final comparison (Rab against Pa/Pb), and every full-success path of the two final handlers raises it while the comparison-failed path raises SMPEventFailure and aborts; the compared quantities are the specified ones; the SMP secret is the hash of (version byte, initiator fingerprint, responder fingerprint, session id, the user's secret exactly as given) with the two fingerprints mirrored between the initiating and the answering side, derived afresh on every start/answer and only in an encrypted session, and it is this secret that enters the exponent computations. Not decided: the algebra (equal secrets ⇒ success, different ⇒ failure), man-in-the-middle relays (follows from the binding, not decided).",
 		func(a *An) {
+			a.c11SSID("W.ssid")
 			a.smpUseAfterVerify("G.smp-verify")
 			a.c11Events()
 			a.c11Secret()
@@ -174,6 +176,59 @@ func (a *An) c11Secret() {
 		}
 		R.Check(n == 1, rule, side.fn+"|store", "the secret is stored once", a.C.Pos(fn.Pos()), fmt.Sprintf("%d stores", n))
 	}
+	// every way of starting or answering a run derives the secret afresh from the secret handed in, which reaches the
+	// state handlers as the caller's slice itself (no copy into a bounded buffer, no reuse of an earlier derivation)
+	nimpl := 0
+	for _, f := range a.C.FuncSeq {
+		if f.Signature.Recv() == nil || (f.Name() != "startAuthenticate" && f.Name() != "continueMessage1") || f.Blocks == nil {
+			continue
+		}
+		nimpl++
+		mo := a.F.MustOK(f)
+		R.Check(mo.Has("called:generateSMPSecret"), rule, a.C.Name(f)+"|derives", "a handler that starts or answers a run without error has derived the SMP secret in this call", a.C.Pos(f.Pos()),
+			"a successful return is reachable without generateSMPSecret: the run uses whatever secret an earlier run left behind")
+		// where the handler delegates to another handler, its own secret parameter is what it hands on
+		last := len(f.Params) - 1
+		for _, b := range f.Blocks {
+			for _, in := range b.Instrs {
+				c, ok := in.(*ssa.Call)
+				if !ok {
+					continue
+				}
+				for _, g := range a.C.Callees(c) {
+					g = a.C.unwrap(g)
+					if (g.Name() == "startAuthenticate" || g.Name() == "continueMessage1") && len(c.Call.Args) > 0 {
+						arg := c.Call.Args[len(c.Call.Args)-1]
+						p, isP := arg.(*ssa.Parameter)
+						R.Check(isP && paramIndex(p) == last, rule, a.C.Name(f)+"|hands-on|"+g.Name(), "the secret handed on is the handler's own secret parameter", a.C.InstrPos(c), "passes "+a.C.Term(arg))
+					}
+				}
+			}
+		}
+	}
+	R.Check(nimpl >= 4, rule, "handlers", "start/answer handlers found", "", fmt.Sprintf("%d", nimpl))
+	for _, api := range []struct {
+		fn, callee string
+		param      int
+	}{
+		{"(*Conversation).StartAuthenticate", "smpState.startAuthenticate", 2},
+		{"(*Conversation).ProvideAuthenticationSecret", "(*Conversation).continueSMP", 1},
+		{"(*Conversation).continueSMP", "(*Conversation).continueMessage", 1},
+		{"(*Conversation).continueMessage", "smpState.continueMessage1", 1},
+	} {
+		fn := a.MustFn(api.fn)
+		if fn == nil {
+			continue
+		}
+		cs := a.CallsIn(fn, api.callee)
+		R.Check(len(cs) == 1, rule, api.fn+"|calls|"+api.callee, api.fn+" hands the secret to "+api.callee, a.C.Pos(fn.Pos()), fmt.Sprintf("%d calls", len(cs)))
+		for _, c := range cs {
+			args := c.Common().Args
+			arg := args[len(args)-1]
+			p, isP := arg.(*ssa.Parameter)
+			R.Check(isP && paramIndex(p) == api.param, rule, api.fn+"|secret", "the secret passed on is the caller's slice itself, whole", a.C.InstrPos(c), "passes "+a.C.Term(arg))
+		}
+	}
 	// the hash input
 	if fn := a.MustFn("generateSMPSecret"); fn != nil {
 		var hnew *ssa.Call
@@ -257,4 +312,67 @@ func ssaConstOf(a *An, name string) ssa.Value {
 		}
 	}
 	return ssa.NewConst(nil, nil)
+}
+
+// forwardLoad: a load from a field that was stored earlier in the same block (nothing in between that could write
+// it: no call, no other store through the same field) reads the stored value.
+func (a *An) forwardLoad(v ssa.Value) ssa.Value {
+	ld, ok := v.(*ssa.UnOp)
+	if !ok || ld.Op != token.MUL {
+		return v
+	}
+	fa, ok := ld.X.(*ssa.FieldAddr)
+	if !ok {
+		return v
+	}
+	want := a.C.Term(fa)
+	b := ld.Block()
+	idx := -1
+	for i, in := range b.Instrs {
+		if in == ssa.Instruction(ld) {
+			idx = i
+		}
+	}
+	for i := idx - 1; i >= 0; i-- {
+		switch x := b.Instrs[i].(type) {
+		case *ssa.Store:
+			if a.C.Term(x.Addr) == want {
+				return x.Val
+			}
+		case ssa.CallInstruction:
+			return v
+		}
+	}
+	return v
+}
+
+// c11SSID: the session id that feeds the SMP secret is the one of the key exchange that produced the current keys:
+// it is written in one place, from calculateAKEKeys, on every path.
+func (a *An) c11SSID(rule string) {
+	R := a.R
+	fld := a.MustField("Conversation", "ssid")
+	fn := a.MustFn("(*Conversation).calcAKEKeys")
+	if fld == nil || fn == nil {
+		return
+	}
+	n := 0
+	for _, st := range a.DirectStoresTo(fld) {
+		f := st.Parent()
+		name := a.C.Name(f)
+		if strings.Contains(strings.ToLower(f.Name()), "wipe") {
+			continue
+		}
+		R.Check(f == fn, rule, "write|Conversation.ssid|"+name, "the session id is written only where the exchange keys are derived", a.C.InstrPos(st), name+" writes the session id")
+		if f != fn {
+			continue
+		}
+		n++
+		v := a.forwardLoad(st.Val)
+		t := a.C.Term(v)
+		R.Check(strings.HasPrefix(t, "calculateAKEKeys(") && strings.HasSuffix(t, "#0"), rule, "calcAKEKeys|value", "the session id is the first result of calculateAKEKeys for this exchange", a.C.InstrPos(st), "stores "+t)
+		for _, r := range a.returnsOf(fn) {
+			R.Check(instrDominates(st, r), rule, "calcAKEKeys|unconditional", "the session id is replaced on every exchange (also when refreshing an encrypted session)", a.C.InstrPos(r), "a return is reachable without the store")
+		}
+	}
+	R.Check(n == 1, rule, "calcAKEKeys|store", "calcAKEKeys stores the session id", a.C.Pos(fn.Pos()), fmt.Sprintf("%d stores", n))
 }
